@@ -143,6 +143,7 @@ def check_corpus(corpus):
                 except Exception as e:
                     fail("C19-suggest-exception", "%s: %s" % (type(e).__name__, e), corpus)
                     continue
+                self_slot = 1 if text in sug else 0     # the self-suggestion (known finding) occupies one of the `limit` slots
                 if text in sug:
                     fail("C19-suggest-self", "suggest(%r) contains the word itself: %r" % (text, sug), corpus)
                 sug = [w for w in sug if w != text]      # the self-suggestion is reported once (C19-suggest-self)
@@ -153,7 +154,7 @@ def check_corpus(corpus):
                 if not bad and not multi and [osa(w, text) for w in sug] != sorted(osa(w, text) for w in sug):
                     fail("C19-suggest-order-distance", "suggest(%r, maxdist=%d) = %r distances %r not ascending" % (text, maxdist, sug, [osa(w, text) for w in sug]), corpus)
                 tw_ok = sorted(set(r.terms_within("t", text, maxdist, prefix=0)) - {text}) == sorted(exp)
-                if not bad and tw_ok and sorted(sug) != sorted(exp)[:10] and len(exp) <= 10:
+                if not bad and tw_ok and sorted(sug) != sorted(exp)[:10] and len(exp) + self_slot <= 10:
                     fail("C19-suggest-set-%s" % tag, "suggest(%r, maxdist=%d) = %r expected the set %r" % (text, maxdist, sorted(sug), sorted(exp)), corpus)
 
 
